@@ -57,7 +57,7 @@ def generate(rng, tier, index):
         kind = o.weighted([("steps", 26), ("integrate", 10), ("snapshot", 24), ("add", 8), ("add_many", 1.5), ("remove", 8), ("remove_hash", 3),
                            ("remove_all", 2), ("switch", 6), ("reset_integrator", 4), ("set", 6), ("add_variation", 2), ("megno", 1),
                            ("display_settings", 1), ("move", 3), ("sync", 3), ("arm", 6 if auto else 0), ("clock_jump", 2),
-                           ("reopen", 3), ("add_overlap", 4 if merge else 0), ("set_lrescale", 3 if (cfg.get("var") or cfg.get("megno")) else 0.3)])
+                           ("reopen", 3), ("signed_zero", 2.5), ("add_overlap", 4 if merge else 0), ("set_lrescale", 3 if (cfg.get("var") or cfg.get("megno")) else 0.3)])
         if kind == "steps":
             ops.append(dict(op="steps", n=o.randint(1, 12)))
         elif kind == "integrate":
@@ -104,6 +104,8 @@ def generate(rng, tier, index):
                 ops.append(dict(op="arm", kind="interval", value=abs(cfg["dt"]) * o.choice([1.0, 2.5, 4.0, 9.0])))
         elif kind == "clock_jump":
             ops.append(dict(op="clock_jump", us=o.choice([3600 * 10**6, -3600 * 10**6, 10**12, -10**9])))
+        elif kind == "signed_zero":
+            ops.append(dict(op="signed_zero", pick=o.randint(0, 20), coord=o.choice(["vz", "z", "vy"]), neg=o.choice([0, 1])))
         elif kind == "set_lrescale":
             ops.append(dict(op="set_lrescale", pick=o.randint(0, 5), value=o.choice([-1.0, 0.0, 12.5])))
         elif kind == "move":
